@@ -118,6 +118,20 @@ def run(ctx):
                 ctx.finding(rs, "api|%s" % name, "after [%s]: %s" % (name, problems[0]), "pysmt/solvers/solver.py")
         ctx.floor(rs, 1500)
 
+    if ctx.want("R6"):
+        rs = ctx.rule("R6", "scripts evaluated on an incremental solver (SmtLibScript.evaluate): every check-sat is answered for the live "
+                            "assertions of the script, and the solver ends with them")
+        from . import solver_deep as sd
+        for seq, kind, problems in sd.script_eval_results(repo, ctx.tier):
+            name = " ; ".join(sd.E_NAMES[x] for x in seq)
+            if kind == "ok":
+                rs.ok({"script": name})
+            elif kind == "unsupported":
+                rs.unrec("%s: %s" % (name, problems[0][:160]))
+            else:
+                ctx.finding(rs, "evaluate|%s" % name, "script [%s] evaluated on a solver: %s" % (name, problems[0]), "pysmt/smtlib/script.py")
+        ctx.floor(rs, 300)
+
     if ctx.want("R4"):
         rs = ctx.rule("R4", "a concrete tracking solver whose back-end needs no native library (Portfolio): the formula each solve hands on is the conjunction of the live assertions")
         from . import solver_deep as sd
